@@ -103,6 +103,8 @@ type World struct {
 	mappings                map[uint64]string
 	closers                 map[uint64]func()
 	MaxHandles, MaxMappings int
+	// Alias is a second spelling of Root (a symbolic link to it): paths below it belong to this world too
+	Alias string
 	// FDLimit > 0 models the process's descriptor limit (ulimit -n): an open beyond it fails with EMFILE
 	FDLimit int
 	OpensTotal, MmapsTotal  int
@@ -181,6 +183,14 @@ func (w *World) Rel(p string) (string, bool) {
 	}
 	if strings.HasPrefix(abs, w.Root+string(filepath.Separator)) {
 		return abs[len(w.Root)+1:], true
+	}
+	if w.Alias != "" {
+		if abs == w.Alias {
+			return ".", true
+		}
+		if strings.HasPrefix(abs, w.Alias+string(filepath.Separator)) {
+			return abs[len(w.Alias)+1:], true
+		}
 	}
 	return "", false
 }
@@ -354,8 +364,11 @@ func (w *World) MappingClosed(id uint64) {
 
 // HandleCount is the number of currently open tracked handles.
 func (w *World) HandleCount() int {
-	w.mu.Lock()
-	defer w.mu.Unlock()
+	if w.Lite {
+		return 0
+	}
+	w.lock()
+	defer w.unlock()
 	return len(w.handles)
 }
 
